@@ -331,17 +331,15 @@ def r5_disabled(ctx):
                        ('is_disabled is not asked with pytest=True' if not kw_ok else 'a disabled doctest can still run under pytest'), anchor=fr.qualname)
     rep.ob('C15.R5', ctx.loc(fr, fr.node), 'plugin skips disabled doctests', found, 'present' if found else 'force-disabled doctests run under pytest', nontrivial=False, anchor=fr.qualname)
     # the two pattern lists
-    fd = ctx.func('xdoctest.doctest_example.DocTest.is_disabled')
-    gd = ctx.cfg(fd)
-    domd = ctx.dom(gd, gd.entry)
-    grows = [n for n in gd.nodes if n.kind == 'stmt' and isinstance(n.ast, ast.AugAssign) and is_name(n.ast.target, 'disable_patterns')]
-    ok = bool(grows)
-    for n in grows:
-        facts = graph.guard_facts(domd, n)
-        if not any(is_name(x.expr, 'pytest') and x.polarity is True for x in facts):
-            ok = False
-    others = [n for n in gd.nodes if n.kind == 'stmt' and not isinstance(n.ast, ast.AugAssign) and any(isinstance(x, ast.Name) and x.id == 'disable_patterns' and isinstance(x.ctx, ast.Store) for x in ast.walk(n.ast))]
-    ok = ok and len(others) == 1
+    from .c10 import disable_pattern_sets
+    fd, sets = disable_pattern_sets(ctx)
+    native = {ps for (n2, c2, sep, ps) in sets[False]}
+    plugin = {ps for (n2, c2, sep, ps) in sets[True]}
+    need(len(native) == 1 and len(plugin) == 1, 'C15.R5: is_disabled does not apply one pattern list per mode')
+    native, plugin = native.pop(), plugin.pop()
+    # everything the native run treats as a disable marker is one for the plugin as well: the lists differ only in pytest-only entries
+    ok = set(native) <= set(plugin) and bool(native)
+    rep.note('disable_patterns', {'native': list(native), 'pytest_only': [p for p in plugin if p not in native]})
     rep.ob('C15.R5', ctx.loc(fd, fd.node), 'pattern lists differ only on the pytest branch', ok,
            'one base list, extended only under `pytest`' if ok else 'the native and pytest disable patterns differ in more than the pytest-only entries', anchor=fd.qualname)
     # native side: the same is_disabled without the flag
